@@ -12,8 +12,8 @@
    event is exactly at the horizon is covered by neither clause, the code deletes it
    (C14_boundary_segment_is_deleted). *)
 From Coq Require Import Permutation.
-From SigM Require Import Base Retention RetentionMem.
-From SigP Require Import BaseProofs RetentionProofs RetentionMemProofs.
+From SigM Require Import Base Retention RetentionMem RetentionConc.
+From SigP Require Import BaseProofs RetentionProofs RetentionMemProofs RetentionConcProofs.
 Open Scope N_scope.
 
 (* the selection test, spelled out *)
@@ -364,3 +364,90 @@ Theorem C14_two_org_cycle_keeps_a_shared_index_name :
     run idl idl idl hz 1 (cycle01 hz st) = cycle01 hz st.
 Proof. exists w_2o_store, 500. exact two_org_cycle_witness. Qed.
 Print Assumptions C14_two_org_cycle_keeps_a_shared_index_name.
+
+(* (7) The pass running WHILE the ingest side publishes freshly rotated segments (SigM.RetentionConc).
+   segmeta.json / metricmeta.json are written by two parties: the pass re-reads the file under the file's lock,
+   writes the preserved lines to <file>.tmp and renames it over the file (or removes the file); a rotation appends
+   the line of its segment (BulkAddRotatedSegmetas, AddMetricsMetaEntry: Lock, THEN open with O_APPEND|O_CREATE,
+   write, close, Unlock).  The model has inodes (a descriptor keeps the inode it was opened on, rename re-binds the
+   name), one lock, threads made of sections, and a scheduler that picks a thread for every single operation.
+   Full statement (property text: "metadata files list exactly the survivors", here with publication going on):
+     for EVERY schedule that lets the pass and n publishers finish, the file holds the survivors of the pass in
+     their old order followed by the n published batches (in the order the publishers got the lock).
+   Proved for the code as it is, for both files, for every store of the pass model; the variant in which the
+   publisher opens the file before it takes the lock ("only the append needs the lock") is refuted. *)
+
+(* when every operation lies inside a locked section, every schedule equals a serial execution of whole sections *)
+Theorem C14_locked_sections_serialize : forall sch s0, quiescent s0 -> all_locked s0 ->
+  finished (run_sched sch s0) = true -> exists ser, run_sched sch s0 = run_serial ser s0.
+Proof. exact conc_serializable_finished. Qed.
+Print Assumptions C14_locked_sections_serialize.
+
+(* one file, the pass (thread 0) and one publisher per batch of lines; needhit: the rewrite happens only when a
+   line of the file is removed (metricmeta.json) / whenever something was selected (segmeta.json).
+   Hypotheses: what is published holds an event newer than the horizon and lives in a directory of its own. *)
+Theorem C14_concurrent_publication_and_pass : forall needhit hz org file pubs sch,
+  (forall l, In l (concat pubs) -> expired hz org l = false) ->
+  (forall l, In l (concat pubs) -> in_sel (file_lines file) l = false) ->
+  finished (run_sched sch (init_state needhit hz org file pubs)) = true ->
+  exists order, Permutation order pubs /\
+    content (mfs (run_sched sch (init_state needhit hz org file pubs)))
+    = survivors hz org (file_lines file) ++ concat order.
+Proof. exact conc_pass_and_publication. Qed.
+Print Assumptions C14_concurrent_publication_and_pass.
+
+Section ConcurrentOrders.
+  Variable ord : list seg -> list seg.
+  Variable ordp : list path -> list path.
+  Variable ordn : list N -> list N.
+  Hypothesis ord_perm : forall l, Permutation (ord l) l.
+  Hypothesis ordp_perm : forall l, Permutation (ordp l) l.
+  Hypothesis ordn_perm : forall l, Permutation (ordn l) l.
+
+  (* both files of a well-formed store: after every schedule of the pass and the publishers each file is what the
+     pass of the store model (C14_metadata_lists_survivors) leaves, followed by what was published *)
+  Theorem C14_concurrent_pass_lists_survivors_and_published : forall hz org st plog pmet schl schm, wf st = true ->
+    (forall l, In l (concat plog ++ concat pmet) -> expired hz org l = false) ->
+    (forall l, In l (concat plog) -> in_sel (segmeta st) l = false) ->
+    (forall l, In l (concat pmet) -> in_sel (mmeta st) l = false) ->
+    let fl := run_sched schl (init_state false hz org (Some (segmeta st)) plog) in
+    let fm := run_sched schm (init_state true hz org (Some (mmeta st)) pmet) in
+    finished fl = true -> finished fm = true ->
+    exists ol om, Permutation ol plog /\ Permutation om pmet /\
+      content (mfs fl) = segmeta (run ord ordp ordn hz org st) ++ concat ol /\
+      content (mfs fm) = mmeta (run ord ordp ordn hz org st) ++ concat om.
+  Proof. exact (conc_store_files ord ordp ordn ord_perm ordp_perm ordn_perm). Qed.
+End ConcurrentOrders.
+Print Assumptions C14_concurrent_pass_lists_survivors_and_published.
+
+(* the publisher that opens the file BEFORE it takes the lock and appends under the lock: with the pass at its
+   rewrite when the publisher arrives (schedule sched_behind, the one the harness forces on the real code), the
+   append goes to the inode the rename has just replaced: all threads finish, nothing reports an error, the file
+   holds the survivors only and the published segment is listed nowhere.  The same programs are fine when the
+   publisher runs first, and the coded publisher is fine under the same schedule. *)
+Theorem C14_open_before_lock_refuted :
+  exists needhit hz org file pubs sch,
+    (forall l, In l (concat pubs) -> expired hz org l = false) /\
+    (forall l, In l (concat pubs) -> in_sel (file_lines file) l = false) /\
+    concat pubs <> [] /\
+    finished (run_sched sch (init_state_open_first needhit hz org file pubs)) = true /\
+    content (mfs (run_sched sch (init_state_open_first needhit hz org file pubs)))
+      = survivors hz org (file_lines file) /\
+    content (mfs (run_sched (sched_ahead (length pubs)) (init_state_open_first needhit hz org file pubs)))
+      = survivors hz org (file_lines file) ++ concat pubs /\
+    content (mfs (run_sched sch (init_state needhit hz org file pubs)))
+      = survivors hz org (file_lines file) ++ concat pubs.
+Proof. exact conc_open_before_lock_refuted. Qed.
+Print Assumptions C14_open_before_lock_refuted.
+
+(* the hypotheses of C14_concurrent_publication_and_pass are satisfiable with work for both sides: one expired and
+   one newer line in the file, one published line, the forced schedule lets every thread finish *)
+Example C14_concurrent_hypotheses_satisfiable :
+  let a := mkseg [1;1] KMet 10 20 0%Z 0 [9;1] in
+  let b := mkseg [1;2] KMet 10 900 0%Z 0 [9;1] in
+  let c := mkseg [1;3] KMet 800 950 0%Z 0 [9;2] in
+  expired 100000 0 a = true /\ expired 100000 0 b = false /\ expired 100000 0 c = false /\
+  in_sel [a; b] c = false /\
+  finished (run_sched (sched_behind 1) (init_state true 100000 0 (Some [a; b]) [[c]])) = true /\
+  content (mfs (run_sched (sched_behind 1) (init_state true 100000 0 (Some [a; b]) [[c]]))) = [b; c].
+Proof. repeat split; vm_compute; reflexivity. Qed.
